@@ -7,11 +7,14 @@
        cfg   = [scion imode nts deadline server server_ia local_ia local]
        table = [[key nonce ad ct ok pt] ...]   AEAD Open answers recomputed by the harness with miscreant
        ops   = [[0 [xchg ...] unused-scripts] | [1] | [2 ms] ...]     call / ResetInterleavedMode / pause (not modelled)
-       xchg  = [[ref ctx1 uid s2c authkey oireq] [event ...] recipe]
-       event = [0 before xflags front payload crx from_server uid_ok auth_ok] | [1 before]
+       xchg  = [[ref ctx1 uid s2c authkey oireq [ke-cookie ...]] [event ...] recipe]
+               (ke-cookies: the cookies of the key exchange the client made for this exchange, if it made one)
+       event = [0 before xflags front payload crx from_server uid_ok auth_ok [cookie ...]] | [1 before]
+               (cookies: the ones the datagram carries in authenticated fields, computed by the harness with the key)
        front = src (IP)  |  [decode_ok nlayers last len_ok src_ia dst_ia src_host dst_host e2e tsopt auth] (SCION;
                hosts and tsopt: -1 = none; auth: 0 none, 1 MAC ok, 2 MAC wrong)
-     outs  = [[code off [[cls [org_s org_f rx_s rx_f tx_s tx_f] [t0 t1 t2 t3 off]] ...]] ...]   one per call
+     outs  = [[code off [[cls [org_s org_f rx_s rx_f tx_s tx_f] [t0 t1 t2 t3 off]] ...] [pool-cookie ...]] ...]   one per call
+             (pool: the fetcher's cookie pool after the call, through the VerifData hook; empty without NTS)
    The model's AEAD is the table; a query that is not in the table poisons the case. *)
 From Coq Require Import ZArith List String Bool.
 From ST Require Import Base.Ints Base.Value Model.NtpTime Model.ClientAccept Extract.GlueBase.
@@ -55,39 +58,48 @@ Definition parse_front (v : value) : option front :=
   | _ => None
   end.
 
-(* an event and, for a datagram, the oracle's view of it *)
-Definition parse_event (v : value) : option (event * option oview) :=
-  match v with
-  | VL [VZ 0; VZ before; VZ xf; fr; VB payload; VZ crx; VZ fs; VZ uo; VZ ao] =>
-      match parse_front fr with
-      | Some f =>
-          Some (EvDgram {| g_before := zb before; g_xflags := xf; g_front := f; g_payload := payload; g_crx := crx |},
-                Some {| o_from_server := zb fs; o_payload := payload; o_uid_ok := zb uo; o_auth_ok := zb ao |})
-      | None => None
-      end
-  | VL [VZ 1; VZ before] => Some (EvErr (zb before), None)
+Fixpoint getBs (l : list value) : option (list bytes) :=
+  match l with
+  | [] => Some []
+  | VB b :: r => match getBs r with Some bs => Some (b :: bs) | None => None end
   | _ => None
   end.
-Fixpoint parse_events (l : list value) : option (list event * list oview) :=
+
+(* an event and, for a datagram, the oracle's view of it and the cookies it carries authentically *)
+Definition parse_event (v : value) : option (event * option oview * list bytes) :=
+  match v with
+  | VL [VZ 0; VZ before; VZ xf; fr; VB payload; VZ crx; VZ fs; VZ uo; VZ ao; VL cks] =>
+      match parse_front fr, getBs cks with
+      | Some f, Some cs =>
+          Some (EvDgram {| g_before := zb before; g_xflags := xf; g_front := f; g_payload := payload; g_crx := crx |},
+                Some {| o_from_server := zb fs; o_payload := payload; o_uid_ok := zb uo; o_auth_ok := zb ao |},
+                if zb fs && zb uo && zb ao then cs else [])
+      | _, _ => None
+      end
+  | VL [VZ 1; VZ before] => Some (EvErr (zb before), None, [])
+  | _ => None
+  end.
+Fixpoint parse_events (l : list value) : option (list event * list oview * list bytes) :=
   match l with
-  | [] => Some ([], [])
+  | [] => Some ([], [], [])
   | v :: r =>
       match parse_event v, parse_events r with
-      | Some (ev, ov), Some (evs, ovs) => Some (ev :: evs, match ov with Some o => o :: ovs | None => ovs end)
+      | Some (ev, ov, cs), Some (evs, ovs, css) =>
+          Some (ev :: evs, match ov with Some o => o :: ovs | None => ovs end, (cs ++ css)%list)
       | _, _ => None
       end
   end.
 
 (* one exchange: the model's environment, the oracle's views, whether the request on the wire was an interleaved one *)
-Record pxchg := { px_env : xenv; px_views : list oview; px_oireq : bool }.
+Record pxchg := { px_env : xenv; px_views : list oview; px_oireq : bool; px_ke : list bytes; px_authentic : list bytes }.
 Definition parse_xchg (v : value) : option pxchg :=
   match v with
-  | VL [VL [VZ ref; VZ ctx1; VB uid; VB s2c; VZ ak; VZ oireq]; VL evs; _] =>
-      match parse_events evs with
-      | Some (es, vs) =>
+  | VL [VL [VZ ref; VZ ctx1; VB uid; VB s2c; VZ ak; VZ oireq; VL ke]; VL evs; _] =>
+      match parse_events evs, getBs ke with
+      | Some (es, vs, cs), Some kes =>
           Some {| px_env := {| e_ref := ref; e_ctx1 := ctx1; e_uid := uid; e_s2c := s2c; e_authkey := zb ak; e_evs := es |};
-                  px_views := vs; px_oireq := zb oireq |}
-      | None => None
+                  px_views := vs; px_oireq := zb oireq; px_ke := kes; px_authentic := cs |}
+      | _, _ => None
       end
   | _ => None
   end.
@@ -139,14 +151,39 @@ Definition xo_value (c : config) (ql : request * loop_result) : value :=
   | LFuel _ => VL [VZ 101; wire; VL []]
   | LBlocked => VL [VZ 102; wire; VL []]
   end.
-Definition call_value (c : config) (cl : call_result * list (request * loop_result)) : value :=
+Definition call_value (c : config) (pool : list bytes) (cl : call_result * list (request * loop_result)) : value :=
   let '(cr0, l) := cl in
   let cr := if c_scion c then scion_return cr0 else cr0 in
+  let pv := VL (map VB pool) in
   match cr with
-  | COffset off _ => VL [VZ 0; VZ off; VL (map (xo_value c) l)]
-  | CError e => VL [VZ (eclass_code e); VZ 0; VL (map (xo_value c) l)]
-  | CPanic => VL [VZ 100; VZ 0; VL (map (xo_value c) l)]
-  | CStuck => VL [VZ 102; VZ 0; VL (map (xo_value c) l)]
+  | COffset off _ => VL [VZ 0; VZ off; VL (map (xo_value c) l); pv]
+  | CError e => VL [VZ (eclass_code e); VZ 0; VL (map (xo_value c) l); pv]
+  | CPanic => VL [VZ 100; VZ 0; VL (map (xo_value c) l); pv]
+  | CStuck => VL [VZ 102; VZ 0; VL (map (xo_value c) l); pv]
+  end.
+
+(* the cookie pool through the exchanges a call made *)
+Fixpoint xchg_pool (open : bytes -> bytes -> bytes -> bytes -> option bytes) (pool : list bytes)
+         (l : list (request * loop_result)) (xs : list pxchg) : list bytes :=
+  match l, xs with
+  | (q, _) :: lr, x :: xr =>
+      let p1 := fetch_pool pool (px_ke x) in
+      xchg_pool open (store_cookies p1 (loop_cookies open q 0 (e_evs (px_env x)))) lr xr
+  | _, _ => pool
+  end.
+
+Fixpoint calls_values (open : bytes -> bytes -> bytes -> bytes -> option bytes) (c : config) (pool : list bytes)
+         (ops : list pop) (res : list (call_result * list (request * loop_result))) : list value :=
+  match ops with
+  | [] => []
+  | PCall xs :: r =>
+      match res with
+      | cl :: rr =>
+          let pool' := if c_nts c then xchg_pool open pool (snd cl) xs else pool in
+          call_value c pool' cl :: calls_values open c pool' r rr
+      | [] => []
+      end
+  | _ :: r => calls_values open c pool r res
   end.
 
 (* ---- the oracle on the observation ---- *)
@@ -185,24 +222,33 @@ Definition accepted_off (v : value) : option Z :=
   | VL [VZ 0; _; VL [_; _; _; _; VZ off]] => Some off
   | _ => None
   end.
-Definition call_ok (nts : bool) (xs : list pxchg) (v : value) : bool :=
+Definition call_ok (nts : bool) (xs : list pxchg) (before : list bytes) (v : value) : bool :=
   match v with
-  | VL [VZ code; VZ off; VL obs] =>
+  | VL [VZ code; VZ off; VL obs; VL poolv] =>
+      match getBs poolv with
+      | Some after => C05_pool_ok before (flat_map px_ke xs) (flat_map px_authentic xs) after
+      | None => false
+      end &&
       xchgs_ok nts xs obs &&
       (if code =? 0 then
          existsb (fun x => match accepted_off x with Some o => o =? off | None => false end) obs
        else true)
   | _ => false
   end.
-Fixpoint calls_ok (nts : bool) (ops : list pop) (outs : list value) : bool :=
+Definition pool_of (v : value) : list bytes :=
+  match v with
+  | VL [_; _; _; VL poolv] => match getBs poolv with Some p => p | None => [] end
+  | _ => []
+  end.
+Fixpoint calls_ok (nts : bool) (before : list bytes) (ops : list pop) (outs : list value) : bool :=
   match ops with
   | [] => match outs with [] => true | _ => false end
   | PCall xs :: r =>
       match outs with
-      | v :: orest => call_ok nts xs v && calls_ok nts r orest
+      | v :: orest => call_ok nts xs before v && calls_ok nts (pool_of v) r orest
       | [] => false
       end
-  | _ :: r => calls_ok nts r outs
+  | _ :: r => calls_ok nts before r outs
   end.
 
 Definition glue_C05 (k : string) (a o : list value) : option verdict :=
@@ -211,8 +257,8 @@ Definition glue_C05 (k : string) (a o : list value) : option verdict :=
     | [cfgv; VL tabv; VL opsv] =>
         match parse_cfg cfgv, table_of tabv, parse_ops opsv with
         | Some c, Some t, Some ops =>
-            let expected := map (call_value c) (history (open_tab t) c cstate0 (hops_of ops)) in
-            Some (functional expected o (calls_ok (c_nts c) ops o))
+            let expected := calls_values (open_tab t) c [] ops (history (open_tab t) c cstate0 (hops_of ops)) in
+            Some (functional expected o (calls_ok (c_nts c) [] ops o))
         | _, _, _ => Some (relational false true)
         end
     | _ => Some (relational false true)
